@@ -146,31 +146,31 @@ func (m *c17mon) Post(s *sim.Sim, st *sim.Step) []*sim.Violation {
 	// (c) mailed tokens only go to the account's own addresses
 	for _, ml := range rec.Mails {
 		m.stats.Count("mails-checked")
-		var tok *sim.MailTok
-		for _, t := range s.Toks {
-			if strings.Contains(ml.Email.TextBody+ml.Email.HTMLBody, strings.TrimRight(t.Token, "=")) {
-				tok = t
+		// every token string this mail carries: the one issued by this request and — should the library
+		// ever re-send a string it mailed before — the accounts that string was mailed for earlier
+		seenPID := map[string]bool{}
+		for _, tok := range s.Toks {
+			if tok.Token == "" || !strings.Contains(ml.Email.TextBody+ml.Email.HTMLBody, strings.TrimRight(tok.Token, "=")) || seenPID[tok.PID] {
+				continue
 			}
-		}
-		if tok == nil {
-			continue
-		}
-		u := rec.After.Users[tok.PID]
-		if u == nil {
-			vs = append(vs, vio("C17", "token-mailed-for-unknown-account", "a mail carrying a %s token was sent to %v but belongs to no stored account", tok.Kind, ml.Email.To))
-			continue
-		}
-		allowed := map[string]bool{u.Email: true}
-		for _, e := range u.Secondary {
-			allowed[e] = true
-		}
-		for _, to := range ml.Email.To {
-			if !allowed[to] {
-				vs = append(vs, vio("C17", "token-mailed-to-foreign-address|"+tok.Kind, "a %s token of %q was mailed to %q", tok.Kind, tok.PID, to))
+			seenPID[tok.PID] = true
+			u := rec.After.Users[tok.PID]
+			if u == nil {
+				vs = append(vs, vio("C17", "token-mailed-for-unknown-account", "a mail carrying a %s token was sent to %v but belongs to no stored account", tok.Kind, ml.Email.To))
+				continue
 			}
-		}
-		if len(ml.Email.Cc)+len(ml.Email.Bcc) > 0 {
-			vs = append(vs, vio("C17", "token-mail-has-cc-bcc", "a token mail carries Cc/Bcc recipients %v %v", ml.Email.Cc, ml.Email.Bcc))
+			allowed := map[string]bool{u.Email: true}
+			for _, e := range u.Secondary {
+				allowed[e] = true
+			}
+			for _, to := range ml.Email.To {
+				if !allowed[to] {
+					vs = append(vs, vio("C17", "token-mailed-to-foreign-address|"+tok.Kind, "a %s token of %q was mailed to %q", tok.Kind, tok.PID, to))
+				}
+			}
+			if len(ml.Email.Cc)+len(ml.Email.Bcc) > 0 {
+				vs = append(vs, vio("C17", "token-mail-has-cc-bcc", "a token mail carries Cc/Bcc recipients %v %v", ml.Email.Cc, ml.Email.Bcc))
+			}
 		}
 	}
 	return vs
@@ -208,6 +208,26 @@ func (m *c17mon) Sig(s *sim.Sim, st *sim.Step) string {
 }
 
 var c17Templates = []sim.Template{
+	{Name: "two-accounts-request-the-2fa-mail-in-one-session", F: func(s *sim.Sim) []*sim.Action {
+		// each account's verification mail carries a token of its own: what was mailed to the first
+		// account never turns up in the mail to the second
+		if !s.Cfg.TwoFAEmail || !s.Cfg.Has("auth") {
+			return nil
+		}
+		free := func(u *world.User) bool { return u.TOTPSecretKey == "" && u.SMSPhone == "" && u.Confirmed }
+		v := findAcct(s, free)
+		x := findAcct(s, free, v)
+		if v < 0 || x < 0 {
+			return nil
+		}
+		k := s.Cfg.TwoFA[s.R.Intn(len(s.Cfg.TwoFA))]
+		sc := []*sim.Action{act("login", 0, v, "ok"), act("ev_start", 0, -9, "", "kind", k)}
+		if s.R.Intn(2) == 0 {
+			sc = append(sc, act("ev_start", 0, -9, "", "kind", k)) // asked twice
+		}
+		sc = append(sc, act("login", 0, x, "ok"), act("ev_start", 0, -9, "", "kind", k), act("ev_end", 0, -9, "current", "kind", k))
+		return sc
+	}},
 	{Name: "near-valid-confirm-token", F: func(s *sim.Sim) []*sim.Action {
 		if !s.Cfg.Has("confirm") {
 			return nil
@@ -285,7 +305,7 @@ func init() {
 	prof.W["confirm"], prof.W["recover_end"], prof.W["recover_start"], prof.W["admin_startconfirm"], prof.W["otp_add"], prof.W["regen"] = 8, 9, 6, 4, 8, 2
 	register(&Check{
 		ID: "C17", Level: "exploration",
-		Rule:  "mixed histories over all flows and module subsets (the C01 generator) with extra weight on near-valid submissions — a valid token followed by one stray character, a valid token in a URL with a broken percent-escape elsewhere — because those make a library log what it received. Secret ledger: every password the harness seeded or typed (incl. wrong ones), every OTP and recovery code shown or seeded, every remember cookie value plus its decoded token, nonce and std-base64 form, every mailed token in URL form, std-base64 form and decoded bytes (all >= 8 bytes). After every request: substring search of every changed/created stored field and new token row, and of every log line the request produced (shipped defaults.Logger); every stored password must be bcrypt-shaped; every mail carrying a token must be addressed only to the account's own addresses. distinct_nontrivial = distinct (action, class, log line shapes, fields changed) signatures.",
+		Rule:  "mixed histories over all flows and module subsets (the C01 generator) with extra weight on near-valid submissions — a valid token followed by one stray character, a valid token in a URL with a broken percent-escape elsewhere — because those make a library log what it received. Secret ledger: every password the harness seeded or typed (incl. wrong ones), every OTP and recovery code shown or seeded, every remember cookie value plus its decoded token, nonce and std-base64 form, every mailed token in URL form, std-base64 form and decoded bytes (all >= 8 bytes). After every request: substring search of every changed/created stored field and new token row, and of every log line the request produced (shipped defaults.Logger); every stored password must be bcrypt-shaped; every mail carrying a token — including a string that was mailed before — must be addressed only to the addresses of every account that string was ever mailed for. distinct_nontrivial = distinct (action, class, log line shapes, fields changed) signatures.",
 		Units: func(t string) int { return tierN(t, 600, 25000) },
 		Run: func(c *RunCtx, unit int) {
 			r := Rng(c.Seed, "C17", unit)
@@ -304,7 +324,7 @@ func init() {
 			sim.RunHistory(s, prof, []sim.Monitor{&c17mon{stats: c.Stats, typed: map[string]string{}}}, c.Stats, unit)
 		},
 		Floors: func(t string) map[string]int {
-			return map[string]int{"log-lines-scanned": 10000, "mails-checked": 300, "stored-fields-scanned": 3000, "template:near-valid-confirm-token": 20, "template:near-valid-recover-token": 20}
+			return map[string]int{"log-lines-scanned": 10000, "mails-checked": 300, "stored-fields-scanned": 3000, "template:near-valid-confirm-token": 10, "template:near-valid-recover-token": 10}
 		},
 		Assumptions: []string{"only secrets of >= 8 bytes are searched for (SMS codes are 6 digits; coincidental hits would be noise); TOTP secrets are stored in clear by design and are not in the property's list", "the logger is the shipped defaults.Logger writing to a capture buffer"},
 	})
